@@ -53,7 +53,7 @@ def run(only=None, tier='quick'):
                 rows.append((name, 'PATCH-DOES-NOT-APPLY', ''))
                 continue
             alarms = []
-            for p in sorted(P.PROPS):
+            for p in sorted(P.PROPS if not os.environ.get('REFACTOR_PROPS') else os.environ['REFACTOR_PROPS'].split(',')):
                 rc, out = sh([os.path.join(VERIF, 'check'), p, tier], VERIF, {'VERIF_REPO': dst, 'VERIF_NO_EVIDENCE': '1', 'VERIF_CONTROLS': '0'})
                 if rc != 0:
                     first = [l.strip() for l in out.splitlines() if l and not l.startswith(('VIOLATION', 'KNOWN', ' ')) and ':' in l][:2]
